@@ -9,7 +9,10 @@ finding `panic-pass-gauge` and the answer is `?known:panic-pass-gauge:<demanded 
 
 Op lines (times are milliseconds relative to the case start; both sides add the same base):
   clock <ms> | rule iso <res> <T> | rule hot <res>
-  entry <id> <res> in|out [type=<t>] <batch> <chain> <nargs> <arg>*      chain = default | c/<pre>/<rules>/<stats>
+  entry <id> <res> in|out|- [type=<t>] [flag=<n>] <batch|-> <chain> <nargs> <arg>* [| <k=v>* [| <k=v>*]]
+      (`-` = the option is not passed; first k=v group = the caller's map given to WithAttachments, second = WithAttachment pairs)
+      chain = default | c/<pre>/<rules>/<stats>
+  whenexit <id> ok|err|panic | attmut <id> <k> <v> | attmap <id> | ctx <id> att|flag|batch | read <res> type | rule hotc <res>
   racexit <id> [<err>]
   trace <id> <err|nil> | exit <id> [<err>]
   read <res|__inbound__> sum|sum10 <ev> | read <res|__inbound__> conc|maxconc|minrt
@@ -61,6 +64,10 @@ structure D where
   cF : Cache := {}
   infos : List (Nat × Info) := []      -- spec: `info d.h id`, kept incrementally with `infoStep` (newest binding first)
   created : List String := []           -- spec: the resources `r` with `nodeExists d.h r`
+  ntype : List (String × String) := []  -- the resource type each node was created with (type of the creating entry)
+  cmaps : List (Nat × List (String × String)) := []   -- the caller's own attachment map per entry id (WithAttachments argument)
+  panicH : List Nat := []               -- live entries with a panicking exit handler registered
+  abandoned : List Nat := []            -- … whose Exit was cut short by that handler (see `exitOp`)
 
 def parseChain? (s : String) : Option Chain :=
   match s.splitOn "/" with
@@ -163,15 +170,64 @@ def known (d : D) (spec : Bool) (id : Nat) : Bool :=
 
 def resTypes : List String := ["common", "web", "rpc", "api_gateway", "db_sql", "cache", "mq"]
 
-/-- the optional `type=<t>` token of an entry op (after `in|out`) -/
-def splitType (ts : List String) : List String × String :=
+/-- the optional `type=<t>` / `flag=<n>` tokens of an entry op (after the traffic type) -/
+def stripOpts : List String → String → Int → List String × String × Int
+  | t :: rest, rty, fl =>
+    if t.startsWith "type=" then stripOpts rest (t.drop 5).toString fl
+    else if t.startsWith "flag=" then
+      match (t.drop 5).toString.toInt? with
+      | some n => stripOpts rest rty n
+      | none => (t :: rest, "bad", fl)
+    else (t :: rest, rty, fl)
+  | [], rty, fl => ([], rty, fl)
+
+def splitOpts (ts : List String) : List String × String × Int :=
   match ts with
-  | "entry" :: id :: res :: dir :: t :: rest =>
-    if t.startsWith "type=" then ("entry" :: id :: res :: dir :: rest, (t.drop 5).toString) else (ts, "common")
-  | _ => (ts, "common")
+  | "entry" :: id :: res :: dir :: rest =>
+    let r := stripOpts rest "common" 0
+    ("entry" :: id :: res :: dir :: r.1, r.2.1, r.2.2)
+  | _ => (ts, "common", 0)
+
+def parsePairs (ts : List String) : Option (List (String × String)) :=
+  ts.mapM fun t => match t.splitOn "=" with
+    | [k, v] => some (k, v)
+    | _ => none
+
+def putKV (l : List (String × String)) (kv : String × String) : List (String × String) :=
+  if l.any (·.1 = kv.1) then l.map (fun x => if x.1 = kv.1 then kv else x) else l ++ [kv]
+
+def sortKV (l : List (String × String)) : List (String × String) := (l.toArray.qsort fun a b => a.1 < b.1).toList
+
+def showKV (l : List (String × String)) : String := showList ((sortKV l).map fun kv => kv.1 ++ "=" ++ kv.2)
+
+/-- `… | k=v … | k=v …` after the args: the map handed to `WithAttachments`, then the pairs of `WithAttachment` -/
+def parseAtts (tail : List String) : Option (Option (List (String × String)) × List (String × String)) :=
+  match tail with
+  | [] => some (none, [])
+  | "|" :: rest =>
+    let m := rest.takeWhile (· ≠ "|")
+    let r := rest.dropWhile (· ≠ "|")
+    match parsePairs m, (match r with | "|" :: r' => parsePairs r' | [] => some [] | _ => none) with
+    | some m, some sgl => some (some m, sgl)
+    | _, _ => none
+  | _ => none
+
+/-- is `id` a live entry (entered, not blocked, not exited)? -/
+def isLive (d : D) (spec : Bool) (id : Nat) : Bool :=
+  if spec then (match d.infos.lookup id with | some i => !i.done | none => false)
+  else (match EntryPool.findP d.pst.ents id with | some pe => !pe.exited | none => false)
+
+/-- one `Exit` call.  A panicking exit handler (outside the property's domain) unwinds to `Exit`'s recover before
+    `SlotChain.exit` runs: the statistic slots never see the completion, exactly as if the caller had never exited; the
+    entry object is finished all the same (`exited`, context recycled).  Both modes treat such an `Exit` as not having
+    happened for the account and remember the id as finished for the caller. -/
+def exitOp (d : D) (spec : Bool) (id : Nat) (err : Option String) : D :=
+  if d.abandoned.contains id then d
+  else if isLive d spec id && d.panicH.contains id then { d with abandoned := id :: d.abandoned }
+  else apply d spec (.exit id err)
 
 def step (spec : Bool) (d : D) (ts0 : List String) (_ : String) : D × Option String :=
-  let (ts, rty) := splitType ts0
+  let (ts, rty, flag) := splitOpts ts0
   if !resTypes.contains rty then (d, some "bad-op") else
   match ts with
   | ["clock", t] => match t.toNat? with
@@ -181,27 +237,59 @@ def step (spec : Bool) (d : D) (ts0 : List String) (_ : String) : D × Option St
       | some T => ({ d with iso := (res, T) :: d.iso }, none)
       | none => (d, some "bad-op")
   | ["rule", "hot", res] => ({ d with hot := res :: d.hot }, none)
-  | "entry" :: id :: res :: dir :: batch :: chain :: nargs :: args =>
-      match id.toNat?, batch.toNat?, nargs.toNat? with
+  -- a hotspot rule with MetricType Concurrency: the same as far as C01 can tell (huge threshold; panics on an unhashable arg 0)
+  | ["rule", "hotc", res] => ({ d with hot := res :: d.hot }, none)
+  | "entry" :: id :: res :: dir :: batch :: chain :: nargs :: rest =>
+      match id.toNat?, (if batch = "-" then some 1 else batch.toNat?), nargs.toNat? with
       | some id, some batch, some nargs =>
-        if nargs ≠ args.length || (dir ≠ "in" && dir ≠ "out") || known d spec id || res = "__inbound__" then (d, some "bad-op") else
+        let args := rest.take nargs
+        if nargs ≠ args.length || (dir ≠ "in" && dir ≠ "out" && dir ≠ "-") || known d spec id || res = "__inbound__" then (d, some "bad-op") else
+        match parseAtts (rest.drop nargs) with
+        | none => (d, some "bad-op")
+        | some (cmap, singles) =>
         let ch := if chain = "default" then some (defaultChain d spec res batch args) else parseChain? chain
         match ch with
         | none => (d, some "bad-op")
         | some ch =>
-          let e : EntryOp := { id := id, res := res, inbound := dir = "in", batch := batch, args := args, chain := ch, rtype := rty }
+          let atts := sortKV (singles.foldl putKV ((cmap.getD []).foldl putKV []))
+          let e : EntryOp := { id := id, res := res, inbound := dir = "in", batch := batch, args := args, chain := ch, rtype := rty,
+                               flag := flag, atts := atts }
+          let before := if spec then d.created.contains res else (findN d.pst.nodes res).isSome
           let d' := apply d spec (.entry e)
+          let after := if spec then d'.created.contains res else (findN d'.pst.nodes res).isSome
+          let d' := if !before && after then { d' with ntype := (res, rty) :: d'.ntype } else d'
+          let d' := match cmap with | some m => { d' with cmaps := (id, m.foldl putKV []) :: d'.cmaps } | none => d'
           let r := if spec then (d'.infos.lookup id).map (fun i => decide (outcome i.e.chain ≠ .block)) else EntryPool.obsEntered d'.pst id
           (d', some (match r with | some true => "pass" | some false => "block" | none => "bad-op"))
       | _, _, _ => (d, some "bad-op")
+  | ["whenexit", id, kind] => match id.toNat? with
+      | some id =>
+        if !known d spec id || (kind ≠ "ok" && kind ≠ "err" && kind ≠ "panic") then (d, some "bad-op") else
+        -- handlers returning nil or an error do not change the account; a panicking one is remembered (see `exitOp`)
+        if kind = "panic" && isLive d spec id && !d.abandoned.contains id && !d.panicH.contains id
+        then ({ d with panicH := id :: d.panicH }, none) else (d, none)
+      | none => (d, some "bad-op")
+  | ["attmut", id, k, v] => match id.toNat? with
+      | some id => match d.cmaps.lookup id with
+        | some m => ({ d with cmaps := (id, putKV m (k, v)) :: d.cmaps }, none)
+        | none => (d, some "bad-op")
+      | none => (d, some "bad-op")
+  | ["attmap", id] => match id.toNat? with
+      | some id => match d.cmaps.lookup id with
+        | some m => (d, some (showKV m))
+        | none => (d, some "bad-op")
+      | none => (d, some "bad-op")
   | ["trace", id, err] => match id.toNat? with
-      | some id => if known d spec id then (apply d spec (.trace id (if err = "nil" then none else some err)), none) else (d, some "bad-op")
+      | some id =>
+        if !known d spec id then (d, some "bad-op") else
+        if d.abandoned.contains id then (d, none) else
+        (apply d spec (.trace id (if err = "nil" then none else some err)), none)
       | none => (d, some "bad-op")
   | ["exit", id] => match id.toNat? with
-      | some id => if known d spec id then (apply d spec (.exit id none), none) else (d, some "bad-op")
+      | some id => if known d spec id then (exitOp d spec id none, none) else (d, some "bad-op")
       | none => (d, some "bad-op")
   | ["exit", id, err] => match id.toNat? with
-      | some id => if known d spec id then (apply d spec (.exit id (if err = "nil" then none else some err)), none) else (d, some "bad-op")
+      | some id => if known d spec id then (exitOp d spec id (if err = "nil" then none else some err), none) else (d, some "bad-op")
       | none => (d, some "bad-op")
   | "racexit" :: id :: errs => match id.toNat? with
       -- two goroutines call Exit (same options) on the same entry at the same time: whatever the overlap, that is two
@@ -209,7 +297,7 @@ def step (spec : Bool) (d : D) (ts0 : List String) (_ : String) : D × Option St
       | some id =>
         if !known d spec id || errs.length > 1 then (d, some "bad-op") else
         let err := match errs with | [e] => if e = "nil" then none else some e | _ => none
-        (apply (apply d spec (.exit id err)) spec (.exit id err), none)
+        (exitOp (exitOp d spec id err) spec id err, none)
       | none => (d, some "bad-op")
   | ["read", key, what, ev] => match Ev.ofString? ev with
       | none => (d, some "bad-op")
@@ -223,6 +311,10 @@ def step (spec : Bool) (d : D) (ts0 : List String) (_ : String) : D × Option St
         else (d, some (showOptNat (·.get ev) (EntryPool.obsWindow d.pst k Iv d.now)))
   | ["read", key, what] =>
       let k := parseKey key
+      if what = "type" then
+        -- `ResourceNode.ResourceType()`: the type of the entry that created the node
+        (d, some (match k with | none => "common" | some r => (d.ntype.lookup r).getD "nil"))
+      else
       if what = "conc" then
         if spec then (d, some (twoSided d.fix (showOptInt (specConc d d.cT k)) (showOptInt (specConc d d.cF k))))
         else (d, some (showOptInt (EntryPool.obsConc d.pst k)))
@@ -237,19 +329,22 @@ def step (spec : Bool) (d : D) (ts0 : List String) (_ : String) : D × Option St
   | ["ctx", id, what] => match id.toNat? with
       | none => (d, some "bad-op")
       | some id =>
-        if what ≠ "err" && what ≠ "args" then (d, some "bad-op") else
-        let sh (v : Option String × List String) : String := if what = "err" then showErr v.1 else showList v.2
+        if !["err", "args", "att", "flag", "batch"].contains what then (d, some "bad-op") else
+        let sh (v : Option String × EntryOp) : String :=
+          if what = "err" then showErr v.1 else if what = "args" then showList v.2.args
+          else if what = "att" then showKV v.2.atts else if what = "flag" then toString v.2.flag else toString v.2.batch
         if spec then
           match d.infos.lookup id with
           | none => (d, some "bad-op")
           | some i =>
             if outcome i.e.chain = .block then (d, some "nil") else
-            if i.done then (d, some "exited") else (d, some (sh (i.err, i.e.args)))
+            if i.done || d.abandoned.contains id then (d, some "exited") else (d, some (sh (i.err, i.e)))
         else
           match EntryPool.findP d.pst.ents id with
           | none => (d, some "bad-op")
           | some pe =>
             if pe.isNil then (d, some "nil") else
+            if d.abandoned.contains id then (d, some "exited") else
             match EntryPool.obsCtx d.pst id with
             | none => (d, some "exited")
             | some v => (d, some (sh v))
